@@ -1,6 +1,6 @@
 """Spike: resolve MIR call-site paths to MIR bodies (definitions) using impl headers read from source spans
 and unification of parameter types."""
-import re, sys, collections, os
+import re, sys, collections, os, functools
 from .mirparse import parse_mir, split_top, scan_top, match_close, find_top
 
 from .mirgen import REPO
@@ -23,6 +23,7 @@ def span_text(path, l1, c1, l2, c2):
 
 # ---------------------------------------------------------------- type terms
 
+@functools.lru_cache(maxsize=None)
 def strip_lifetimes(t):
     t = re.sub(r"::<'[A-Za-z_][A-Za-z0-9_]*>", '', t)       # ::<'a>
     t = re.sub(r"'[A-Za-z_][A-Za-z0-9_]*\s*,\s*", '', t)   # 'a,
@@ -32,6 +33,7 @@ def strip_lifetimes(t):
     return t.strip()
 
 
+@functools.lru_cache(maxsize=None)
 def last_seg(path):
     """strip module prefixes from a nominal path:  num_bigint::BigInt -> BigInt ; std::ops::Add<u8> kept args"""
     # split at top-level '::'
@@ -58,6 +60,11 @@ PRIMS = {'u8', 'u16', 'u32', 'u64', 'u128', 'usize', 'i8', 'i16', 'i32', 'i64', 
 
 
 def parse_ty(s, tyvars=()):
+    return _parse_ty(s, frozenset(tyvars))
+
+
+@functools.lru_cache(maxsize=None)
+def _parse_ty(s, tyvars):
     s = strip_lifetimes(s.strip())
     if s.startswith('&'):
         r = s[1:].strip()
@@ -219,6 +226,7 @@ class Index:
     def __init__(self, bodies):
         self.defs = [Def(b) for b in bodies if b.kind == 'fn']
         self.by_method = collections.defaultdict(list)
+        self._cache = {}
         for d in self.defs:
             # discover tyvars from params
             tv = set(d.tyvars)
@@ -229,6 +237,14 @@ class Index:
             self.by_method[d.method].append(d)
 
     def resolve(self, func, arg_tys):
+        key = (func, tuple(arg_tys))
+        c = self._cache.get(key)
+        if c is None:
+            c = self._resolve(func, arg_tys)
+            self._cache[key] = c
+        return list(c)
+
+    def _resolve(self, func, arg_tys):
         """func: call-site path string; arg_tys: list of type strings of actual args"""
         f = strip_lifetimes(func)
         trait = None
